@@ -25,8 +25,7 @@ func (w *world) settle(f failer) {
 		// disturbed by lazy garbage collection.
 		w.poke()
 	}
-	w.inspect40()
-	w.inspect41()
+	w.refreshNames()
 	for _, c := range sortedClients40(w) {
 		c.sync(f)
 	}
@@ -45,7 +44,47 @@ func (w *world) poke() {
 // makeSeq wraps an alphabet and a canned prefix into an Engine B
 // exploration.
 func makeSeq(name string, props []string, depth map[string]int, prefix func(w *world, f failer), letters []letter) *mc.Seq {
+	return makeSeqFP(name, props, depth, prefix, letters, "")
+}
+
+// unified reports every violation (and every server panic) of a scenario
+// under one fingerprint: used for scenarios that exist to exhibit one
+// known root cause with many symptoms.
+type unified struct {
+	f  failer
+	fp string
+}
+
+func (u unified) FailP(prop, fingerprint, format string, args ...any) {
+	u.f.FailP(prop, u.fp, "["+fingerprint+"] "+format, args...)
+}
+func (u unified) Logf(format string, args ...any) { u.f.Logf(format, args...) }
+
+func makeSeqFP(name string, props []string, depth map[string]int, prefix func(w *world, f failer), letters []letter, fp string) *mc.Seq {
 	s := &mc.Seq{Name: name, Props: props, Depth: depth, Panics: []string{"C18", "C19", "C20"}}
+	wrap := func(f failer) failer {
+		if fp == "" {
+			return f
+		}
+		return unified{f, fp}
+	}
+	// guard converts a server panic into a violation with the unified
+	// fingerprint (if there is one) and marks the instance as dead.
+	guard := func(w *world, f failer, fn func()) {
+		if fp == "" {
+			fn()
+			return
+		}
+		defer func() {
+			if r := recover(); r != nil {
+				w.dead = true
+				for _, p := range props {
+					f.FailP(p, fp, "the server panicked: %v", r)
+				}
+			}
+		}()
+		fn()
+	}
 	build := func(c failer) *world {
 		w := newWorld(nil)
 		if prefix != nil {
@@ -60,17 +99,24 @@ func makeSeq(name string, props []string, depth map[string]int, prefix func(w *w
 		op := mc.SeqOp{Name: l.name, Do: func(c *mc.SeqCtx, st any) {
 			w := st.(*world)
 			w.hist = append(w.hist, i)
-			l.do(w, c)
-			w.settle(c)
+			guard(w, c, func() {
+				l.do(w, wrap(c))
+				w.settle(wrap(c))
+			})
 		}}
-		if l.enabled != nil {
-			op.Enabled = func(st any) bool { return l.enabled(st.(*world)) }
+		op.Enabled = func(st any) bool {
+			w := st.(*world)
+			return !w.dead && (l.enabled == nil || l.enabled(w))
 		}
 		s.Ops = append(s.Ops, op)
 	}
 	s.Key = func(st any) string { return st.(*world).key() }
-	s.Check = func(c *mc.SeqCtx, st any) {
+	s.Check = func(c0 *mc.SeqCtx, st any) {
 		w := st.(*world)
+		if w.dead {
+			return
+		}
+		c := wrap(c0)
 		w.checkPassive(c)
 		for _, cl := range sortedClients40(w) {
 			cl.checkEntitlements(c)
@@ -79,8 +125,21 @@ func makeSeq(name string, props []string, depth map[string]int, prefix func(w *w
 			cl.checkEntitlements(c)
 		}
 	}
-	s.Final = func(c *mc.SeqCtx, st any) {
+	s.Final = func(c0 *mc.SeqCtx, st any) {
 		w := st.(*world)
+		if w.dead {
+			return
+		}
+		c := wrap(c0)
+		guard(w, c0, func() { finalOracle(w, c, build, letters) })
+	}
+	return s
+}
+
+// finalOracle is the destructive part of the oracles, run on a separate
+// replay of every distinct state.
+func finalOracle(w *world, c failer, build func(c failer) *world, letters []letter) {
+	{
 		// Second instance of the same state, for the other reclaim
 		// path.
 		w2 := build(silent{})
@@ -113,7 +172,6 @@ func makeSeq(name string, props []string, depth map[string]int, prefix func(w *w
 		w2.checkFaults(c)
 		w2.reclaimByExpiry(c, "after the clients closed everything")
 	}
-	return s
 }
 
 // silent discards violations (used while rebuilding a state).
@@ -128,10 +186,16 @@ func (silent) Logf(format string, args ...any)                     {}
 // unlinked file that is open stays reachable through its handle.
 func (w *world) probeAll(f failer) {
 	w.poke()
-	w.inspect40()
-	w.inspect41()
+	w.refreshNames()
+	before := w.snapshot()
 	for _, c := range sortedClients40(w) {
-		c.probe(f)
+		c.probeWrong(f)
+	}
+	if after := w.snapshot(); after != before {
+		f.FailP("C18", "refused-but-changed", "refused I/O with state IDs presented for another file or with a wrong sequence number changed state:\n--- before\n%s\n--- after\n%s", before, after)
+	}
+	for _, c := range sortedClients40(w) {
+		c.probeRight(f)
 	}
 	for _, c := range sortedClients41(w) {
 		c.probe(f)
@@ -182,7 +246,10 @@ func (w *world) someoneEntitled(l *fakeLeaf) bool {
 	return false
 }
 
-func (c *client40) probe(f failer) {
+// probeWrong presents every entitling state ID of the client in ways it
+// was not issued for (other file, other sequence). All of these must be
+// refused; the caller checks that none of them changed anything.
+func (c *client40) probeWrong(f failer) {
 	w := c.w
 	owners, opens := c.allOpens()
 	for i, op := range opens {
@@ -191,48 +258,16 @@ func (c *client40) probe(f failer) {
 			continue
 		}
 		what := fmt.Sprintf("open state ID of client %s owner %s for %s", c.long, o.name, op.leaf.id)
-		// Wrong file.
 		for _, other := range w.fs.leaves {
-			if other == op.leaf {
-				continue
+			if other != op.leaf {
+				c.refused(f, "other-file", what, other, op.sid)
 			}
-			c.refused(f, "other-file", what, other, op.sid)
 		}
-		// Wrong sequence.
 		future, past := op.sid, op.sid
 		future.Seqid++
 		past.Seqid--
 		c.refused(f, "future-seqid", what, op.leaf, future)
 		c.refused(f, "old-seqid", what, op.leaf, past)
-		// Wrong client: a LOCK that names another client's ID.
-		for _, oc := range sortedClients40(w) {
-			if oc != c && oc.haveID {
-				before := w.snapshot()
-				res := w.compound(0, "LOCK(foreign clientid)", putfh(op.leaf.handle), &nfsv4.NfsArgop4_OP_LOCK{Oplock: nfsv4.Lock4args{
-					Locktype: nfsv4.WRITE_LT, Offset: 0, Length: 1,
-					Locker: &nfsv4.Locker4_TRUE{OpenOwner: nfsv4.OpenToLockOwner4{
-						OpenSeqid: nextSeq(o.seq), OpenStateid: op.sid, LockSeqid: 1,
-						LockOwner: nfsv4.LockOwner4{Clientid: oc.id, Owner: []byte("LX")},
-					}},
-				}})
-				if st := opStatus(res, 1); st == nfsv4.NFS4_OK {
-					f.FailP("C18", "honoured-for-other-client", "LOCK with the %s but a lock-owner of client %s was granted", what, oc.long)
-				} else if consumed(st) {
-					o.seq = nextSeq(o.seq)
-				}
-				if ok, _ := w.fs.balanced(); false && ok {
-					_ = before
-				}
-			}
-		}
-		// Right presentations.
-		if op.bits&accRead != 0 {
-			c.io(f, ioRead, op.leaf, op.sid, op.bits, true)
-		}
-		if op.bits&accWrite != 0 {
-			c.io(f, ioWrite, op.leaf, op.sid, op.bits, true)
-			c.io(f, ioSetattr, op.leaf, op.sid, op.bits, true)
-		}
 		for _, ln := range sortedKeys(op.locks) {
 			l := op.locks[ln]
 			if !l.valid || l.gone {
@@ -247,6 +282,51 @@ func (c *client40) probe(f failer) {
 			fut := l.sid
 			fut.Seqid++
 			c.refused(f, "future-seqid", lwhat, op.leaf, fut)
+		}
+	}
+}
+
+// probeRight uses every entitling state ID the way it was issued: that
+// must work. Before that, a LOCK that combines the open state ID with a
+// lock-owner of ANOTHER client must be refused.
+func (c *client40) probeRight(f failer) {
+	w := c.w
+	owners, opens := c.allOpens()
+	for i, op := range opens {
+		o := owners[i]
+		if !c.entitled(o, op) {
+			continue
+		}
+		what := fmt.Sprintf("open state ID of client %s owner %s for %s", c.long, o.name, op.leaf.id)
+		for _, oc := range sortedClients40(w) {
+			if oc == c || !oc.haveID {
+				continue
+			}
+			res := w.compound(0, "LOCK(foreign clientid)", putfh(op.leaf.handle), &nfsv4.NfsArgop4_OP_LOCK{Oplock: nfsv4.Lock4args{
+				Locktype: nfsv4.WRITE_LT, Offset: 0, Length: 1,
+				Locker: &nfsv4.Locker4_TRUE{OpenOwner: nfsv4.OpenToLockOwner4{
+					OpenSeqid: nextSeq(o.seq), OpenStateid: op.sid, LockSeqid: 1,
+					LockOwner: nfsv4.LockOwner4{Clientid: oc.id, Owner: []byte("LX")},
+				}},
+			}})
+			if st := opStatus(res, 1); st == nfsv4.NFS4_OK {
+				f.FailP("C18", "honoured-for-other-client", "LOCK with the %s but a lock-owner of client %s was granted", what, oc.long)
+			} else if consumed(st) {
+				o.seq = nextSeq(o.seq)
+			}
+		}
+		if op.bits&accRead != 0 {
+			c.io(f, ioRead, op.leaf, op.sid, op.bits, true)
+		}
+		if op.bits&accWrite != 0 {
+			c.io(f, ioWrite, op.leaf, op.sid, op.bits, true)
+			c.io(f, ioSetattr, op.leaf, op.sid, op.bits, true)
+		}
+		for _, ln := range sortedKeys(op.locks) {
+			l := op.locks[ln]
+			if !l.valid || l.gone {
+				continue
+			}
 			if l.bits&accRead != 0 {
 				c.io(f, ioRead, op.leaf, l.sid, l.bits, true)
 			}
@@ -258,18 +338,14 @@ func (c *client40) probe(f failer) {
 }
 
 // refused presents a state ID in a way it was not issued for: the request
-// must fail and must not change anything.
+// must fail.
 func (c *client40) refused(f failer, how, what string, leaf *fakeLeaf, sid nfsv4.Stateid4) {
 	w := c.w
-	before := w.snapshot()
 	for _, k := range []ioKind{ioRead, ioWrite} {
 		res := w.compound(0, k.String()+"("+how+")", putfh(leaf.handle), ioOp(k, sid))
 		if st := opStatus(res, 1); st == nfsv4.NFS4_OK && len(res.Resarray) == 2 {
 			f.FailP("C18", "honoured-"+how, "%s of %s with the %s presented with %s succeeded", k, leaf.id, what, how)
 		}
-	}
-	if after := w.snapshot(); after != before {
-		f.FailP("C18", "refused-but-changed-"+how, "refused I/O with the %s presented with %s changed state:\n--- before\n%s\n--- after\n%s", what, how, before, after)
 	}
 }
 
@@ -474,7 +550,7 @@ func seqs40() []*mc.Seq {
 
 	// Registration, re-registration and lease expiry around one open
 	// file with a lock.
-	out = append(out, makeSeq("v40-registration", []string{"C18", "C19"}, map[string]int{"quick": 5, "thorough": 7}, nil, []letter{
+	out = append(out, makeSeq("v40-registration", []string{"C18", "C19"}, map[string]int{"quick": 5, "thorough": 6}, nil, []letter{
 		l40setclientid("c1", 1), l40setclientid("c1", 2), l40confirm("c1"),
 		l40open("c1", "O1", "a", accBoth, howNoCreate), l40openConfirm("c1", "O1", "a"),
 		l40lock("c1", "O1", "a", "L1", rangeB0, false),
@@ -482,9 +558,18 @@ func seqs40() []*mc.Seq {
 		lAdvance(halfLease, "lease/2"), lAdvance(pastLease, "lease+1"),
 	}))
 
+	// Retransmitted COMPOUND {PUTROOTFH, OPEN, GETFH}: the whole reply
+	// must be the one given the first time, including the file handle
+	// returned by GETFH.
+	out = append(out, makeSeqFP("v40-open-replay-filehandle", []string{"C19"}, map[string]int{"quick": 2, "thorough": 3},
+		chain(prefix40Confirmed("c1"), func(w *world, f failer) { w.strictOpenReplay = true }), []letter{
+			l40open("c1", "O1", "a", accRead, howNoCreate), l40open("c1", "O1", "a", accBoth, howNoCreate), l40open("c1", "O1", "b", accRead, howUnchecked),
+			l40openConfirm("c1", "O1", "a"), l40close("c1", "O1", "a"),
+		}, "open-replay-loses-current-filehandle"))
+
 	// Share reservations: upgrade, downgrade, close, lock-owner share
 	// cloning, I/O with every kind of state ID, unlinking.
-	out = append(out, makeSeq("v40-share", []string{"C18", "C19"}, map[string]int{"quick": 4, "thorough": 6}, prefix40Confirmed("c1"), []letter{
+	out = append(out, makeSeq("v40-share", []string{"C18", "C19"}, map[string]int{"quick": 4, "thorough": 5}, prefix40Confirmed("c1"), []letter{
 		l40open("c1", "O1", "a", accRead, howNoCreate), l40open("c1", "O1", "a", accWrite, howNoCreate), l40open("c1", "O1", "a", accBoth, howNoCreate),
 		l40open("c1", "O2", "a", accBoth, howNoCreate),
 		l40openConfirm("c1", "O1", "a"), l40openConfirm("c1", "O2", "a"),
@@ -515,7 +600,7 @@ func seqs40() []*mc.Seq {
 
 	// Two clients, one file: re-registration of one client must not
 	// disturb the other; expiry order.
-	out = append(out, makeSeq("v40-two-clients", all3, map[string]int{"quick": 4, "thorough": 6}, prefix40Confirmed("c1", "c2"), []letter{
+	out = append(out, makeSeq("v40-two-clients", all3, map[string]int{"quick": 4, "thorough": 5}, prefix40Confirmed("c1", "c2"), []letter{
 		l40open("c1", "O1", "a", accBoth, howNoCreate), l40openConfirm("c1", "O1", "a"),
 		l40open("c2", "O1", "a", accBoth, howNoCreate), l40openConfirm("c2", "O1", "a"),
 		l40lock("c1", "O1", "a", "L1", rangeAll, false), l40lock("c2", "O1", "a", "L1", rangeB0, false),
@@ -547,10 +632,10 @@ func seqs40() []*mc.Seq {
 		l40close("c1", "O1", "a"),
 		lAdvance(pastLease, "lease+1"),
 	)
-	out = append(out, makeSeq("v40-locks", all3, map[string]int{"quick": 3, "thorough": 5}, locksPrefix, lockLetters))
+	out = append(out, makeSeq("v40-locks", []string{"C18", "C20"}, map[string]int{"quick": 3, "thorough": 4}, locksPrefix, lockLetters))
 
 	// One lock-owner across two files and two open-owners.
-	out = append(out, makeSeq("v40-locks-two-files", all3, map[string]int{"quick": 4, "thorough": 6},
+	out = append(out, makeSeq("v40-locks-two-files", all3, map[string]int{"quick": 4, "thorough": 5},
 		chain(prefix40Open("c1", "O1", "a", accBoth), func(w *world, f failer) {
 			c := w.client40("c1")
 			c.open(f, "O1", "b", accRead, howNoCreate, false)
